@@ -10,6 +10,12 @@ class Unsupported(Exception):
     pass
 
 
+class RawOpen:
+    """value of an open-type component given as its complete (octet aligned) encoding"""
+    def __init__(self, data):
+        self.data = bytes(data)
+
+
 class Bits:
     def __init__(self):
         self.v = 0
@@ -270,7 +276,16 @@ class Encoder:
                 b.put(1 if present(c) else 0, 1)
         for c in root:
             if present(c):
-                self.enc(b, c.type, v[c.name])
+                if getattr(c, "open", False):
+                    # open type (X.691 10.2): complete encoding, octet aligned, behind a length determinant
+                    inner = Bits()
+                    if isinstance(v[c.name], RawOpen):
+                        inner.put_bytes(v[c.name].data)     # a complete encoding produced elsewhere
+                    else:
+                        self.enc(inner, c.type, v[c.name])
+                    put_open(b, inner)
+                else:
+                    self.enc(b, c.type, v[c.name])
             elif not (c.optional or c.has_default):
                 raise Unsupported("missing mandatory component")
         if rt.ext is not None and anyadd:
